@@ -639,6 +639,13 @@ def run_whatshap(
                     )
                     # identical for all samples
                     components[sample] = overall_components
+                for sample in family:
+                    if sample not in superreads:
+                        # The algorithm returned no super reads (the heuristic does that when there
+                        # are no usable reads). The sample is still a target of this run, so that
+                        # the writer removes phasing information left by an earlier run.
+                        superreads[sample] = ReadSet()
+                        components[sample] = overall_components
 
                 if read_list:
                     read_list.write(
